@@ -154,6 +154,25 @@ def generate(repo):
                     raise ValueError("%s:%d: chunk-walk loop outside a recognised function" % (rel, s.count("\n", 0, m.start()) + 1))
                 c = re.sub(r"\s+", " ", cond).strip()
                 loops.append({"file": rel, "line": s.count("\n", 0, m.start()) + 1, "func": f, "cond": c, "cls": cond_class(cond, body)})
+            # do-while loops that walk the chunk list:  do { v = v->GetNext..(); ... } while (cond);   (newline_case() hung in one)
+            for m in re.finditer(r"\bdo\s*\{", s):
+                k = s.index("{", m.start())
+                be = balanced(s, k, "{", "}")
+                body = s[k:be + 1]
+                mw = re.match(r"\s*while\s*\(", s[be + 1:])
+                if not mw:
+                    continue
+                cs = be + 1 + mw.end()
+                e = balanced(s, cs - 1, "(", ")")
+                cond = s[cs:e]
+                walk = re.findall(r"\b(\w+)\s*=\s*\1->Get(?:Next|Prev)\w*\(", body)
+                if not walk:
+                    continue
+                f = fn_at(funcs, m.start())
+                if f is None:
+                    raise ValueError("%s:%d: do-while chunk walk outside a recognised function" % (rel, s.count("\n", 0, m.start()) + 1))
+                c = re.sub(r"\s+", " ", cond).strip()
+                loops.append({"file": rel, "line": s.count("\n", 0, m.start()) + 1, "func": f, "cond": "do-while: " + c, "cls": cond_class(cond, body)})
             # for-loops that walk the chunk list in their increment:  for (init; cond; v = v->GetNext..())
             for m in re.finditer(r"\bfor\s*\(", s):
                 e = balanced(s, m.end() - 1, "(", ")")
